@@ -9,5 +9,5 @@ for id in "$@"; do
   out=$(cd /verif && ./run.sh "$id" ${TIER:-quick} 2>&1); rc=$?
   echo "== $id rc=$rc"; echo "$out" | grep -E "VIOLATION|INFRA|sub-property" | head -6 | cut -c1-400
 done
-git checkout -- .
+git checkout -- .; for id in "$@"; do rm -rf /verif/replays/$id; done
 git status --short | head
